@@ -508,11 +508,13 @@ func CrashMain(args []string) error {
 		copyTree(src, nd)
 		nc, err := loadDir(nd)
 		if err != nil {
-			return err
+			x.emit(tr.M{"ev": "plan", "snap": s.Name, "variant": s.Variant, "points": []int{}, "error": "snapshot does not load: " + err.Error()})
+			continue
 		}
 		ino0 := inode(filepath.Join(nd, "cache"))
 		if err := Mutate(nc, s.Variant); err != nil {
-			return fmt.Errorf("clean save of %s failed: %v", s.Name, err)
+			x.emit(tr.M{"ev": "plan", "snap": s.Name, "variant": s.Variant, "points": []int{}, "error": "fault-free save failed: " + err.Error()})
+			continue
 		}
 		ino1 := inode(filepath.Join(nd, "cache"))
 		newSize := fileSize(filepath.Join(nd, "cache"))
@@ -520,7 +522,8 @@ func CrashMain(args []string) error {
 		copyTree(nd, nd2)
 		nc2, err := loadDir(nd2)
 		if err != nil {
-			return fmt.Errorf("clean save of %s does not load: %v", s.Name, err)
+			x.emit(tr.M{"ev": "plan", "snap": s.Name, "variant": s.Variant, "points": []int{}, "error": "fault-free save does not load: " + err.Error()})
+			continue
 		}
 		newP := Project(nc2, CrashOpts())
 		os.RemoveAll(od)
